@@ -243,7 +243,14 @@ def add_events(u):
                                            C('C06+C10.events.global_plus_one_on_every_link_once_per_srtla_ack', 'forall|j: int| 0 <= j < c_nx ==> (#[trigger] connections[j]).window == plus_one_capped(&pre_global[j]) && log_same(&pre_global[j], &connections[j])'),
                                            'forall|j: int| c_nx <= j < connections.len() ==> #[trigger] connections[j] == pre_global[j]'],
                            dec='connections.len() - c_nx'),
-                   5: dict(inv=_EV_BASE + ['nak_nx <= incoming.nak_numbers.len()', 'keys_subset(after_acks, connections@)'], dec='incoming.nak_numbers.len() - nak_nx'),
+                   5: dict(inv=_EV_BASE + ['nak_nx <= incoming.nak_numbers.len()', 'keys_subset(after_acks, connections@)',
+                                           # a NAK either went through the one-charge step below, or (a path that skips it) left every link as it was
+                                           C('C05.events.each_nak_charges_at_most_one_link',
+                                             'nak_step_ok || (nak_begin.len() == connections.len() && forall|j: int| 0 <= j < nak_begin.len() ==> link_unchanged(&nak_begin[j], &#[trigger] connections[j]))')],
+                           dec='incoming.nak_numbers.len() - nak_nx',
+                           before='    let ghost mut nak_step_ok: bool = true;\n    let ghost mut nak_begin: Seq<SrtlaConnection> = connections@;',
+                           begin='        proof { nak_step_ok = false; nak_begin = connections@; }',
+                           end='        proof { nak_step_ok = true; }'),
                    6: dict(inv=['pkt_nx <= incoming.forward_to_client.len()',
                                 C('C09.events.forwarded_datagrams_reach_the_client_once_in_order', 'wire =~= vec_views(incoming.forward_to_client@).subrange(0, pkt_nx as int)')],
                            dec='incoming.forward_to_client.len() - pkt_nx'),
@@ -299,7 +306,7 @@ def add_events(u):
         let ghost pre_global = connections@;
         let ghost c_entry = connections@;
         let mut c_nx: usize = 0;''', 'replace'),
-                   ('let nak_res = attribute_nak(connections, seq_tracker, *nak, current_time_ms);', 'let ghost n0 = connections@;', 'before'),
+                   ('let nak_res = attribute_nak(connections, seq_tracker, *nak, current_time_ms);', 'let ghost n0 = nak_begin;\n        proof { assert(connections@ == nak_begin); }  // @ob C05.events.each_nak_charges_at_most_one_link', 'before'),
                    ('let nak_res = attribute_nak(connections, seq_tracker, *nak, current_time_ms);', '''proof {
             assert((nak_res is None ==> forall|j: int| 0 <= j < n0.len() ==> link_unchanged(&n0[j], &#[trigger] connections[j]))  // @ob C05.events.each_nak_charges_at_most_one_link
                 && (nak_res is Some ==> link_charged(&n0[nak_res.unwrap() as int], &connections[nak_res.unwrap() as int], *nak as i32)
